@@ -5,11 +5,12 @@ from ..core.model import AnalysisError, Program
 from ..core.report import CheckContext
 from ..core.resolve import Resolver
 from ..rules import classflow, derived
-from .common import run_control
+from .common import run_control, generic_rules
 
 
 def analyse(ctx: CheckContext, p: Program):
     r = Resolver(p)
+    generic_rules(ctx, p, r, "C19")
     sc = p.find_class("StreamCollection")
     st = p.find_class("Stream")
     if sc is None or st is None:
@@ -105,6 +106,8 @@ def run(ctx: CheckContext):
     ]
     sc = "OpenPinch/classes/stream_collection.py"
     stp = "OpenPinch/classes/stream.py"
+    run_control(ctx, "C19/zero-temperature-skips-refresh", analyse, p.root, "OpenPinch/classes/stream.py",
+                "if self._t_supply is None or self._t_target is None or self._htc is None:", "if not all((self._t_supply, self._t_target, self._htc)):", "TRUTHY")
     run_control(ctx, "C19/remove-without-invalidation", analyse, p.root, sc,
                 "            del self._streams[stream_name]\n            self._needs_sort = True\n", "            del self._streams[stream_name]\n", "MEMO-M1")
     run_control(ctx, "C19/iter-without-ensure-sorted", analyse, p.root, sc,
